@@ -589,3 +589,47 @@ Theorem orun_is_vrun ops :
 Proof. unfold orun, vrun. apply orun_sim. unfold vinit. cbn [mem]. apply of_spec_limit. Qed.
 
 End History.
+
+(** * MemoApprover *)
+
+Lemma mrun_app delegate ops1 : forall memo ops2,
+  mrun delegate memo (ops1 ++ ops2) =
+  let '(m1, a1) := mrun delegate memo ops1 in
+  let '(m2, a2) := mrun delegate m1 ops2 in (m2, a1 ++ a2).
+Proof.
+  induction ops1 as [|o r IH]; intros memo ops2; cbn [app mrun].
+  - destruct (mrun delegate memo ops2). reflexivity.
+  - destruct (mstep delegate memo o) as [m1 a]. rewrite IH.
+    destruct (mrun delegate m1 r) as [m2 a1]. destruct (mrun delegate m2 ops2) as [m3 a2].
+    destruct a; reflexivity.
+Qed.
+
+(** what is memorized after a history: the argument of a trailing [approve], nothing otherwise *)
+Lemma memo_after delegate pre : forall memo,
+  fst (mrun delegate memo pre) =
+  match rev pre with
+  | [] => memo
+  | MSet txs :: _ => txs
+  | MAsk _ :: _ => []
+  end.
+Proof.
+  induction pre as [|o r IH] using rev_ind; intros memo; [reflexivity|].
+  rewrite rev_app_distr. cbn [rev app]. rewrite mrun_app.
+  destruct (mrun delegate memo r) as [m1 a1]. cbn [mrun].
+  destruct o; cbn [mstep fst]; reflexivity.
+Qed.
+
+(** with a delegate that declines, a request is approved only if the operation right before it
+    is an [approve] naming this very transaction; so one approval serves at most one request *)
+Theorem memo_exact_once pre tx :
+  snd (mstep (fun _ => false) (fst (mrun (fun _ => false) [] pre)) (MAsk tx)) = Some true ->
+  exists pre' txs, pre = pre' ++ [MSet txs] /\ In tx txs.
+Proof.
+  rewrite memo_after. cbn [mstep snd]. rewrite orb_false_r.
+  destruct (rev pre) as [|o r] eqn:E.
+  - cbn [existsb]. discriminate.
+  - assert (P : pre = rev r ++ [o]) by (rewrite <- (rev_involutive pre), E; reflexivity).
+    destruct o as [txs|t]; [|cbn [existsb]; discriminate].
+    intros H. inversion H as [H1]. apply existsb_exists in H1. destruct H1 as (x & Hin & Hx).
+    apply N.eqb_eq in Hx. subst x. exists (rev r), txs. split; assumption.
+Qed.
